@@ -400,6 +400,16 @@ func pipeBody(env *simrt.Env, prop string) {
 				if ns > 120 {
 					ns, np = 25, 4+simrt.Draw(18)
 				}
+				// one time in three only the pre-trigger length moves (see zz_verif_c08.go)
+				if simrt.Draw(3) == 0 {
+					np2 := w.npre + 1 + simrt.Draw(30)
+					if simrt.Draw(3) == 0 {
+						np2 = w.npre - 1 - simrt.Draw(30)
+					}
+					if np2 >= 1 && np2 < w.nsamp-1 {
+						ns, np = w.nsamp, np2
+					}
+				}
 				setLengths(ns, np)
 			case 1:
 				l := oddLengths[simrt.Draw(len(oddLengths))]
